@@ -42,7 +42,7 @@ class Run(PropRunStream):
     quick_cases = 270
     quick_seconds = 45
     p_interrupt = 0.2           # interrupted runs are ordinary cases since fix D11
-    corpus = [witness("D1 "), witness("D3 "), witness("D11 ")] + W2.CONTROLS + W2.CONTROLS2
+    corpus = [witness("D1 "), witness("D3 "), witness("D11 ")] + W2.CONTROLS + W2.CONTROLS2 + W2.CONTROLS3
 
 
 class RunPT(PropRunStream):
